@@ -191,6 +191,7 @@ func (p *Proxy) Connect() error {
 		ConnectTimeout:    p.config.ConnectTimeout,
 		IdleTimeout:       p.config.IdleTimeout,
 		Logger:            p.logger,
+		RefreshWindow:     verifRefreshWindow(),
 	})
 
 	if err != nil {
@@ -371,6 +372,7 @@ func (p *Proxy) maybeCreateSessionUnlocked(version primitive.ProtocolVersion, ke
 			return nil, err
 		}
 
+		verifAt("proxy.sessions.store", p, key.keyspace, key.compression, int(key.version))
 		p.sessions[key] = sess
 		return sess, nil
 	}
